@@ -112,3 +112,46 @@ Definition outer (g : list R) : list R := flat_map (fun gi => map (Rmult gi) g) 
 
 (* component k of a per-row vector, as a per-row scalar *)
 Definition comp (k : nat) (v : Z -> list R) : Z -> R := fun r => nth k (v r) 0.
+
+(* ------------------------------------------------------------------ the library's own ways of forming parts
+   (database.py): Database.extract_rows(a_range) = data.iloc[list(a_range)], Database.split(slices)
+   = numpy.array_split of the shuffled rows + estimation/validation pairs, Database.mdcev_row_split
+   = one data set per row.  Rows are identified with their positions 0..n-1. *)
+Open Scope Z_scope.
+
+(* Python range(start, stop, step), step <> 0 *)
+Definition py_range (start stop step : Z) : list Z :=
+  if 0 <? step then map (fun j => start + j * step) (zrange 0 (cdiv (stop - start) step))
+  else if step <? 0 then map (fun j => start + j * step) (zrange 0 (cdiv (start - stop) (- step)))
+  else [].
+
+(* data.iloc[list(positions)] on the table whose row i is [nth i data] *)
+Definition extract_rows {A} (d : A) (data : list A) (positions : list Z) : list A :=
+  map (fun i => nth (Z.to_nat i) data d) positions.
+
+(* the interleaved split of n rows into m parts: [range(k, n, m) for k in range(m)] *)
+Definition interleaved (n m : Z) : list (list Z) := map (fun k => py_range k n m) (zrange 0 m).
+
+(* numpy.array_split(l, k): the first (n mod k) slices have n/k + 1 elements, the others n/k *)
+Definition array_split_sizes (n k : nat) : list nat :=
+  map (fun i => if (i <? n mod k)%nat then S (n / k) else (n / k)%nat) (seq 0 k).
+
+Fixpoint take_sizes {A} (sizes : list nat) (l : list A) : list (list A) :=
+  match sizes with
+  | [] => []
+  | s :: ss => firstn s l :: take_sizes ss (skipn s l)
+  end.
+
+Definition array_split {A} (l : list A) (k : nat) : list (list A) :=
+  take_sizes (array_split_sizes (length l) k) l.
+
+(* Database.split: slice i is the validation set, the concatenation of the others the estimation set *)
+Definition estimation_of {A} (slices : list (list A)) (i : nat) : list A :=
+  concat (firstn i slices ++ skipn (S i) slices).
+Definition validation_of {A} (slices : list (list A)) (i : nat) : list A := nth i slices [].
+Definition split_pairs {A} (shuffled : list A) (k : nat) : list (list A * list A) :=
+  let slices := array_split shuffled k in
+  map (fun i => (estimation_of slices i, validation_of slices i)) (seq 0 k).
+
+(* mdcev_row_split: one part per row *)
+Definition row_split {A} (l : list A) : list (list A) := map (fun x => [x]) l.
